@@ -11,6 +11,7 @@ import shutil
 from .. import classify, drive, hist, listing, world
 from ..oracle import dirhash, ignoreref, refhash, xmlread
 
+VERBOSITY = False  # stdout of verify -dh -co is parsed / runs must be identical
 LEVEL = "exploration"
 RULE = (
     "case = tree (depth 0-5, empty directories, directories holding only directories, fan-out up to 16, duplicate contents, "
